@@ -110,6 +110,46 @@ class Inliner:
             args.append({"k": tup["k"], "p": pl})
         return cpath, cb, args
 
+    AWAIT_IDENT = M.IDENTITY_CALLS + ("future::IntoFuture::into_future", "Pin::<Ptr>::new_unchecked", "pin::Pin::<Ptr>::new_unchecked",
+                                      "Pin::<Ptr>::new", "ops::DerefMut::deref_mut", "Pin::<Ptr>::as_mut")
+
+    def _await_callee(self, out, t):
+        """`Future::poll` on the future returned by a local `async fn g(args)`: (coroutine path, its fact, operands captured by the
+        coroutine in upvar order). The body of g's coroutine then runs in place of the poll."""
+        f = t.get("func") or {}
+        if not (f.get("fn_path") or "").endswith("future::Future::poll") or len(t.get("args", [])) != 2:
+            return None
+        B = M.Body(out)
+        os_ = M.trace(B, t["args"][0], self.AWAIT_IDENT)
+        if len(os_) != 1 or os_[0].kind != "call":
+            return None
+        gt = os_[0].term
+        gpath, gfact = None, None
+        for p in ((gt.get("func") or {}).get("inst_path"), (gt.get("func") or {}).get("fn_path")):
+            b = self.crate.body(p) if p else None
+            if b is not None and b.get("mir") and not b.get("closure"):
+                gpath, gfact = p, b
+                break
+        if gfact is None or gpath in self.rec or self.stop(gpath):
+            return None
+        agg = None
+        for blk in gfact["mir"]["blocks"]:
+            for st in blk["stmts"]:
+                if st["k"] == "assign" and st["p"]["l"] == 0 and st["rv"]["k"] == "aggregate" and st["rv"].get("ak") == "coroutine":
+                    agg = st["rv"]
+        if agg is None:
+            return None
+        cfact = self.crate.body(agg["closure"])
+        if cfact is None or not cfact.get("mir"):
+            return None
+        ops = []
+        for op in agg["ops"]:
+            if op.get("k") in ("copy", "move") and not op["p"].get("proj") and 1 <= op["p"]["l"] <= gfact["mir"]["arg_count"]:
+                ops.append(copy.deepcopy(gt["args"][op["p"]["l"] - 1]))
+            else:
+                return None
+        return agg["closure"], cfact, ops
+
     def _callee_fact(self, t):
         f = t.get("func") or {}
         if f.get("k") != "const":
@@ -141,12 +181,18 @@ class Inliner:
                 continue
             p, cb = self._callee_fact(t)
             call_args = t.get("args", [])
+            awaited = None
             if cb is None:
                 cc = self._closure_callee(out, t) if self.closures else None
                 if cc is None:
-                    continue
-                p, cb, rest = cc
-                call_args = [t["args"][0]] + rest
+                    awaited = self._await_callee(out, t) if self.closures else None
+                    if awaited is None:
+                        continue
+                    p, cb, captured = awaited
+                    call_args = []
+                else:
+                    p, cb, rest = cc
+                    call_args = [t["args"][0]] + rest
             cm = copy.deepcopy(cb["mir"])
             loff = len(m["locals"])
             boff = len(m["blocks"])
@@ -169,7 +215,14 @@ class Inliner:
                 ct = nb["term"]
                 _rename_term(ct, loff, boff)
                 ct.pop("unwind", None)
-                if ct.get("k") == "return":
+                if ct.get("k") == "return" and awaited is not None:
+                    # the coroutine finished: the poll yields Poll::Ready(result)
+                    nb["stmts"].append({"k": "assign", "p": copy.deepcopy(dest),
+                                        "rv": {"k": "aggregate", "ak": "adt", "adt": "std::task::Poll", "variant": "Ready",
+                                               "ops": [{"k": "move", "p": {"l": loff, "proj": None}}]},
+                                        "sp": t.get("sp"), "inl": "return"})
+                    nb["term"] = {"k": "goto", "target": target, "sp": t.get("sp")} if target is not None else {"k": "unreachable", "sp": t.get("sp")}
+                elif ct.get("k") == "return":
                     nb["stmts"].append({"k": "assign", "p": copy.deepcopy(dest), "rv": {"k": "use", "op": {"k": "move", "p": {"l": loff, "proj": None}}},
                                         "sp": t.get("sp"), "inl": "return"})
                     nb["term"] = {"k": "goto", "target": target, "sp": t.get("sp")} if target is not None else {"k": "unreachable", "sp": t.get("sp")}
@@ -177,6 +230,23 @@ class Inliner:
                     nb["term"] = {"k": "unreachable", "sp": ct.get("sp")}
                 m["blocks"].append(nb)
                 work.append((nb["i"], depth + 1))
+            if awaited is not None:
+                # the coroutine's environment: its captured values are the arguments of the async fn; _1 of the body refers to it
+                env_l = len(m["locals"])
+                m["locals"].append({"i": env_l, "ty": "{coroutine env of " + p + "}", "user": False, "from": p})
+                blk["stmts"].append({"k": "assign", "p": {"l": env_l, "proj": None},
+                                     "rv": {"k": "aggregate", "ak": "coroutine", "closure": p, "ops": captured}, "sp": t.get("sp"), "inl": "env"})
+                blk["stmts"].append({"k": "assign", "p": {"l": loff + 1, "proj": None}, "rv": {"k": "ref", "bk": "Mut", "p": {"l": env_l, "proj": None}},
+                                     "sp": t.get("sp"), "inl": "arg"})
+                blk["stmts"].append({"k": "assign", "p": {"l": loff + 2, "proj": None}, "rv": {"k": "use", "op": t["args"][1]}, "sp": t.get("sp"), "inl": "arg"})
+                # the poll of an inlined body never reports Pending to this level: take the Ready arm
+                if target is not None:
+                    tb = m["blocks"][target]
+                    tt = tb.get("term") or {}
+                    if tt.get("k") == "switch" and any(st.get("k") == "assign" and st["rv"].get("k") == "discr" and st["rv"]["p"]["l"] == dest["l"] for st in tb["stmts"]):
+                        ready = [bb for v, bb in tt["targets"] if v == 0]
+                        if ready:
+                            tb["term"] = {"k": "goto", "target": ready[0], "sp": tt.get("sp"), "was": "switch on Poll"}
             for k, a in enumerate(call_args):
                 blk["stmts"].append({"k": "assign", "p": {"l": loff + 1 + k, "proj": None}, "rv": {"k": "use", "op": a}, "sp": t.get("sp"), "inl": "arg"})
             blk["term"] = {"k": "goto", "target": boff, "sp": t.get("sp"), "inlined_call": p}
